@@ -145,6 +145,7 @@ Fixpoint built (g : gen) : bool :=
 (* generator objects as the constructors see them (used by the generated code gen/Gen_C13.v):
    g.size, isinstance(g, MeshGenerator), g.generators *)
 Definition obj_size (g : gen) : nat := csize g.
+Definition obj_is_generator (g : gen) : bool := true.        (* isinstance(g, BaseGenerator): every gen value is one *)
 Definition obj_is_mesh (g : gen) : bool := match g with Mesh _ => true | _ => false end.
 Definition obj_generators (g : gen) : list gen := match g with Mesh hs | Concat hs | Ensemble hs => hs | _ => [] end.
 
